@@ -7,6 +7,7 @@ pub fn run(id: &str) -> String {
         "F01-map-mvreg-foreign-dots" => Some(crate::c05::finding_mvreg_foreign_dots()),
         "F20b-map-mvreg-hidden-clock" => Some(crate::c05::finding_mvreg_hidden_clock()),
         "F01b-map-mvreg-removed-dot-in-value-clock" => Some(crate::c05::finding_mvreg_removed_dot_in_value_clock()),
+        "F17b-map-nested-double-spend-unflagged" => Some(crate::c05::finding_nested_double_spend_unflagged()),
         "F16-map-validate-op" => Some(crate::c05::finding_map_validate_op()),
         "F17-addall-validate-merge" => Some(crate::c05::finding_addall_validate_merge()),
         "F20-nested-pending-residue" => Some(crate::c05::finding_nested_pending_residue()),
